@@ -170,12 +170,44 @@ func hasModPrefix(fn *ssa.Function) bool {
 	return len(pk) >= len(modPath) && pk[:len(modPath)] == modPath
 }
 
-// factsAtDeep: the facts at the instruction itself plus the facts at every site of its chain (each in the
-// coordinates of the function it belongs to — sufficient for facts recognised by callee names).
+// factsAtDeep: the facts at the instruction itself plus the facts at every site of its chain, each translated
+// into the coordinates of the root function (parameters replaced by the actual arguments along the chain).
 func (fx *Facts) factsAtDeep(h deepHit) FactSet {
-	fs := fx.FactsAt(h.In).clone()
-	for _, site := range h.Chain {
-		fs.addAll(fx.FactsAt(site))
+	fs := emptySet()
+	add := func(src FactSet, chain []ssa.Instruction) {
+		if src.Bottom {
+			return
+		}
+		for _, f := range src.M {
+			fs.add(Fact{liftTerm(f.T, chain), f.Pol})
+		}
+	}
+	add(fx.FactsAt(h.In), h.Chain)
+	for i, site := range h.Chain {
+		add(fx.FactsAt(site), h.Chain[:i])
 	}
 	return fs
+}
+
+// liftTerm translates a term in the coordinates of the function at the end of the chain into the coordinates
+// of the root: parameters are replaced by the actual arguments at each call site of the chain (innermost
+// first), free variables by their bindings at a closure-creation site.
+func liftTerm(t *Term, chain []ssa.Instruction) *Term {
+	for i := len(chain) - 1; i >= 0; i-- {
+		switch site := chain[i].(type) {
+		case *ssa.MakeClosure:
+			t = substFree(t, site.Fn.(*ssa.Function), site)
+		case ssa.CallInstruction:
+			t = t.subst(callActuals(site))
+		}
+	}
+	return t
+}
+
+// rootSite: the instruction in the root function that leads to the hit (the hit itself when it is in the root).
+func (h deepHit) rootSite() ssa.Instruction {
+	if len(h.Chain) > 0 {
+		return h.Chain[0]
+	}
+	return h.In
 }
